@@ -32,5 +32,8 @@ instance : NumOps Float where
   lt := fun x y => x < y
   le := fun x y => x ≤ y
   isNaN := Float.isNaN
+  abs := Float.abs
+  tol9 := 1e-9
+  max := fun x y => if x.isNaN then y else if y.isNaN then x else if x < y then y else x
 
 end NumbatModel.Qty
